@@ -59,6 +59,9 @@ type Run struct {
 	known       map[string]bool
 	findings    []Finding
 	inconcl     []string
+	// ReplayKey, when set, makes this run a replay of one recorded violation:
+	// no evidence is written; exit 1 iff a violation with this key shows up again.
+	ReplayKey string
 }
 
 type violation struct {
@@ -192,7 +195,9 @@ func (r *Run) Violation(key string, detail any) {
 	b, _ := json.MarshalIndent(map[string]any{
 		"property": r.ID, "key": key, "tier": r.Tier, "seed": r.Seed, "detail": detail,
 	}, "", " ")
-	os.WriteFile(path, b, 0o644)
+	if r.ReplayKey == "" {
+		os.WriteFile(path, b, 0o644)
+	}
 	r.violations = append(r.violations, violation{Key: key, Detail: detail, Replay: path})
 	fmt.Printf("VIOLATION property=%s replay=%s\n", r.ID, path)
 	fmt.Printf("  what: %s\n", key)
@@ -237,6 +242,21 @@ func (r *Run) Finish() {
 		evd["assumptions"] = []string{}
 	}
 	nv, ni := len(r.violations), len(r.inconcl)
+	if r.ReplayKey != "" {
+		hit := false
+		for _, v := range r.violations {
+			if v.Key == r.ReplayKey {
+				hit = true
+			}
+		}
+		r.mu.Unlock()
+		if hit {
+			fmt.Printf("replay: %s %q reproduced\n", r.ID, r.ReplayKey)
+			os.Exit(1)
+		}
+		fmt.Printf("replay: %s %q did not show up again (%d other violations, %d inconclusive)\n", r.ID, r.ReplayKey, nv, ni)
+		os.Exit(0)
+	}
 	r.mu.Unlock()
 	b, _ := json.MarshalIndent(evd, "", " ")
 	dir := filepath.Join(Root(), "evidence")
